@@ -85,9 +85,9 @@ def run(prog, rep):
     rep.rule("C11.to_df-lists-every-entry", "to_df lists every entry once under its true labels; sparse: exactly the non-zero entries")
     rep.rule("C11.roundtrip-identical", "from_df(to_df(x) in any layout, permuted / re-headed / via CSV) is x")
     rep.rule("C11.wide-layout-of-1d-array", "to_df(dim_to_columns=d) works for a 1-dimensional array")
-    for c, m in (("FlodymArray", "to_df"), ("FlodymArray", "from_df"), ("DataFrameToFlodymDataConverter", "get_target_values"),
-                 ("DataFrameToFlodymDataConverter", "_check_data_complete")):
+    for c, m in (("FlodymArray", "to_df"), ("FlodymArray", "from_df"), ("FlodymArray", "set_values_from_df")):
         prog.method(c, m)
+    prog.cls("DataFrameToFlodymDataConverter")
     arrays = ARRAYS_QUICK if rep.tier == "quick" else ARRAYS_THOROUGH
     jobs = [("to_df", l, rep.tier) for l in arrays] + [("rt", l, rep.tier) for l in arrays]
     fails = {}
